@@ -298,6 +298,7 @@ pub fn init(id: &str) {
     ONCE.call_once(|| {
         crate::engine::install_quiet_panic_hook();
         crate::engine::load_known(id);
+        crate::engine::LIGHT_PROBES.store(true, std::sync::atomic::Ordering::Relaxed);
     });
 }
 
